@@ -38,6 +38,7 @@ def main():
                 res[c] = {0: 'MISSED', 1: 'caught' + ('(no-input)' if nf else ''), 2: 'CRASH'}.get(rc, 'rc%d' % rc)
         finally:
             sh(['git', '-C', '/repo', 'checkout', '--', '.'])
+            sh(['git', '-C', VERIF, 'checkout', '--', 'evidence'])
         ok = res.get(meta['property'], '').startswith('caught')
         bad += 0 if ok else 1
         print(sid, ' '.join('%s=%s' % kv for kv in sorted(res.items())), '' if ok else '  <-- own property check does not catch it')
